@@ -118,7 +118,7 @@ func oracleC08(x *Exec, so *StepObs) {
 				wantH = 1
 			}
 			if nm != wantM || nh != wantH {
-				fail("partition", dest+":"+s.Style, fmt.Sprintf("document %s (%s/%s, file %s) expected in %s: found %d time(s) in the manifest and %d time(s) in the hook list", s.Marker, s.Kind, s.Name, s.File, dest, nm, nh))
+				fail("partition", dest+":"+s.Style+":sep="+cs.SepStyle[s.File], fmt.Sprintf("document %s (%s/%s, file %s) expected in %s: found %d time(s) in the manifest and %d time(s) in the hook list", s.Marker, s.Kind, s.Name, s.File, dest, nm, nh))
 				return
 			}
 			want := parseDoc(strings.ReplaceAll(RenderSlot(*s, false), "\r\n", "\n"))
@@ -199,7 +199,7 @@ func oracleC08(x *Exec, so *StepObs) {
 			}
 			seen[q.ID.String()]++
 			out := q.SeqOut
-			if out == 0 || q.Fault == FStall {
+			if out == 0 {
 				out = ^uint64(0) // never answered (stalled, abandoned)
 			}
 			if len(groups) == 0 || groups[len(groups)-1].kind != q.ID.Kind {
@@ -370,6 +370,14 @@ func genC08(seed, index uint64, tier string) *Plan {
 		cs.Notes = "NOTES-MARKER {{ .Release.Name }}\n"
 	}
 	cs.Partials = g.Chance(0.4)
+	if g.Chance(0.5) {
+		cs.SepStyle = map[string]string{}
+		for _, f := range files {
+			if g.Chance(0.5) {
+				cs.SepStyle[f] = g.Pick("crlf", "comment", "spaces", "doubled", "leading")
+			}
+		}
+	}
 	p.Charts = []ChartSpec{cs}
 	op := OpSpec{Op: "install", Chart: 0, Wait: g.Chance(0.3), NoHooks: g.Chance(0.2)}
 	if clientOnly {
